@@ -117,7 +117,7 @@ def solve_all(prop, target, fv, obs, repo, tier, timeout_ms, cross, budget_s=Non
         if ob.verdict == "refuted":
             confirm_refutation(prop, target, fv.sha, ob, rec, repo, fv)
             if rec.get("via") == "finite-instantiation" and not rec.get("confirmed"):
-                rec["discarded_candidate"] = {"inputs": rec.get("inputs"), "replay": rec.get("replay_result")}
+                rec["discarded_candidate"] = {"inputs": rec.get("inputs"), "replay": rec.get("replay_result"), "replay_path": rec.get("replay_path")}
                 hard.append(ob)
         elif ob.verdict == "unknown":
             hard.append(ob)
@@ -161,8 +161,8 @@ def verify_worker(job):
         from . import contract as C, verify, solve
 
         load_contracts(prop)
-        c = [x for x in C.BY_PROP[prop] if x.target == target][0]
-        c.known = [k for k in load_known(prop) if k.get("status") == "known" and k.get("target") == target]
+        c = [x for x in C.BY_PROP[prop] if x.key == target][0]
+        c.known = [k for k in load_known(prop) if k.get("status") == "known" and k.get("target") == c.target]
         need_fallback = False
         try:
             fv = verify.FnVerifier(c, repo, tier=tier)
@@ -255,6 +255,19 @@ def run_replay(path, repo):
     return json.loads(line[-1][7:])
 
 
+def obl_key(name):
+    """function / kind[label] of an obligation name (path id dropped)"""
+    return name.split("@")[0]
+
+
+def load_baseline(prop):
+    p = os.path.join(HERE, "baseline", "obligations.json")
+    if not os.path.exists(p):
+        return {}
+    with open(p) as f:
+        return json.load(f).get(prop, {})
+
+
 # ------------------------------------------------------------------------------ check
 def check(prop, tier, repo, seed, jobs):
     from . import contract as C
@@ -273,7 +286,7 @@ def check(prop, tier, repo, seed, jobs):
         if c.verify:
             n = max(1, int(getattr(c, "shards", 1) or 1))
             for sh in range(n):
-                vjobs.append((prop, c.target, repo, tier, timeout_ms, tier == "thorough", sh, n))
+                vjobs.append((prop, c.key, repo, tier, timeout_ms, tier == "thorough", sh, n))
     njobs = [(prop, n["name"], repo, tier, seed) for n in natives if tier in n.get("tiers", ("quick", "thorough"))]
     njobs += [(prop, "domain:" + c.target, repo, tier, seed) for c in contracts if c.native_domain is not None]
     ctx = mp.get_context("fork")
@@ -318,6 +331,21 @@ def check(prop, tier, repo, seed, jobs):
             print("NOTE known finding %s no longer reproduces on this tree (witness passes)" % kf["id"])
         else:
             errors.append("known-finding witness %s could not be replayed: %s" % (kf["id"], r.get("detail")))
+
+    baseline = load_baseline(prop)
+
+    def regressed(ob):
+        """An obligation that passed on the unchanged tree and now fails (brief: reportable even without a
+        failing input): it is undecided by the complete query, a finite-instantiation counter-model exists
+        that could NOT be replayed (no native harness - as opposed to a replay that passed), and every
+        obligation of the same function / kind / label was discharged in the committed baseline."""
+        cand = ob.get("discarded_candidate")
+        if ob["verdict"] != "unknown" or not cand:
+            return False
+        st = (cand.get("replay") or {}).get("status")
+        if st in ("pass", "pre-false"):
+            return False
+        return baseline.get(obl_key(ob["name"])) == "discharged"
 
     def report_refuted(ob):
         if ob.get("confirmed"):
@@ -390,6 +418,8 @@ def check(prop, tier, repo, seed, jobs):
                 if ob["verdict"] == "refuted":
                     if not report_refuted(ob):
                         lost.append("%s unknown (unconfirmed candidate model)" % ob["name"])
+                elif regressed(ob):
+                    violations.append((ob["discarded_candidate"].get("replay_path"), " no-failing-input-found", ob["name"]))
                 else:
                     lost.append("%s %s %s" % (ob["name"], ob["verdict"], ob["detail"]))
         for ob in res["obligations"][:2]:
@@ -489,6 +519,21 @@ def check(prop, tier, repo, seed, jobs):
         ev["coverage"]["explanation"] = explanation
     with open(os.path.join(HERE, "evidence", prop + ".json"), "w") as f:
         json.dump(ev, f, indent=1, default=str)
+    if os.environ.get("XV_WRITE_BASELINE"):
+        summ = {}
+        for res in vres:
+            for ob in res.get("obligations", []):
+                k_ = obl_key(ob["name"])
+                if ob["verdict"] != "discharged":
+                    summ[k_] = ob["verdict"]
+                else:
+                    summ.setdefault(k_, "discharged")
+        bp = os.path.join(HERE, "baseline", "obligations.json")
+        os.makedirs(os.path.dirname(bp), exist_ok=True)
+        allb = json.load(open(bp)) if os.path.exists(bp) else {}
+        allb[prop] = summ
+        with open(bp, "w") as f:
+            json.dump(allb, f, indent=0, sort_keys=True)
 
     for l in known_lines:
         print(l)
